@@ -545,8 +545,9 @@ def root_cause(ex):
     """deterministic text for an exception chain (the codec's errors carry object reprs with addresses)"""
     while ex.__cause__ is not None:
         ex = ex.__cause__
-    return "%s(%s)" % (type(ex).__name__, ", ".join(str(a) for a in getattr(ex, "args", ())
-                                                     if isinstance(a, (str, int, bytes))))
+    txt = "%s(%s)" % (type(ex).__name__, ", ".join(str(a) for a in getattr(ex, "args", ())
+                                                    if isinstance(a, (str, int, bytes))))
+    return txt if len(txt) <= 160 else txt[:160] + "..."
 
 
 def msg_specs(item, quick):
@@ -865,6 +866,136 @@ def work_msgs(item):
 
 
 # ---------------------------------------------------------------------------
+# Part A, object histories: one message object driven through state changes; whatever data_msg then encodes
+# must be a datagram the matching definition accepts and reads like the layout
+
+OH_STARTS = ["v1:GMSK", "v1:8PSK", "v1:32QAM", "v1:nope", "v0:148", "v0:444", "tx0:148", "tx1:444"]
+OH_OPS = ["nope-on", "nope-off", "burst-none", "burst-mod", "burst-148", "ver-0", "ver-1", "mod-8PSK", "mod-none"]
+
+
+def oh_start(start):
+    dm = env()["dm"]
+    kind, what = start.split(":")
+    if kind.startswith("tx"):
+        m = dm.TxMsg(fn=0x1234, tn=3, ver=int(kind[2]))
+        m.pwr = 0x5a
+        m.burst = bytearray(hard_pat("alt", int(what)))
+        return m
+    m = dm.RxMsg(fn=0x4321, tn=5, ver=int(kind[1]))
+    m.rssi, m.toa256 = -77, -300
+    if m.ver == 1:
+        m.ci = 123
+        if what == "nope":
+            m.nope_ind = True
+        else:
+            m.mod_type = dm.Modulation[R01.TK_NAME[what]]
+            m.tsc_set, m.tsc = 1, 6
+            m.burst = array('b', soft_pat("ramp", R01.MODS[what][2]))
+    else:
+        m.burst = array('b', soft_pat("ramp", int(what)))
+    return m
+
+
+def oh_apply(m, op):
+    dm = env()["dm"]
+    tx = type(m).__name__ == "TxMsg"
+    if op == "nope-on":
+        m.nope_ind = True                      # nothing else is cleared
+    elif op == "nope-off":
+        m.nope_ind = False
+    elif op == "burst-none":
+        m.burst = None
+    elif op == "burst-mod":
+        mt = getattr(m, "mod_type", None)
+        n = mt.bl if mt is not None else 148
+        m.burst = bytearray(hard_pat("alt", n)) if tx else array('b', soft_pat("alt", n))
+    elif op == "burst-148":
+        m.burst = bytearray(hard_pat("one", 148)) if tx else array('b', soft_pat("one", 148))
+    elif op == "ver-0":
+        m.ver = 0
+    elif op == "ver-1":
+        m.ver = 1
+        if not tx and m.ci is None:
+            m.ci = -5
+    elif op == "mod-8PSK":
+        m.mod_type = dm.Modulation.Mod8PSK
+        if not tx and m.tsc_set is None:
+            m.tsc_set, m.tsc = 0, 2
+    elif op == "mod-none":
+        m.mod_type = None
+    else:
+        raise HarnessError("object-history op %r" % op)
+
+
+def judge_objhist(start, ops, out, cov):
+    """after every state change: if gen_msg() produces a datagram, the definition must accept it and read what the
+    layout reads; (a message data_msg refuses produces no datagram and is none of C17's business)"""
+    e = env()
+    DecodeError = e["codec"].DecodeError
+    m = oh_start(start)
+    case = {"k": "objhist", "start": start, "ops": list(ops)}
+    for i, op in enumerate(ops):
+        oh_apply(m, op)
+        for legacy in (False, True):
+            if legacy and (type(m).__name__ == "TxMsg" or m.ver != 0):
+                continue
+            try:
+                d = bytes(m.gen_msg(legacy))
+            except Exception:
+                cov["objhist_refused"] += 1
+                continue
+            cov["evaluations"] += 1
+            cov["objhist_datagrams"] += 1
+            cov["nontrivial_inputs"].add(hash(("objhist", d)))
+            pdu = "v%d%s" % (d[0] >> 4, "tx" if type(m).__name__ == "TxMsg" else "rx")
+            hist = "%s object after %s%s" % (start, list(ops[:i + 1]), ", legacy padding" if legacy else "")
+            if pdu not in e["pdu"]:
+                out.append(("C17:codec-history:unknown-version", case, "%s: data_msg emitted version %d" % (hist, d[0] >> 4)))
+                continue
+            P = e["pdu"][pdu]
+            verdict = ref_decode(pdu, d)
+            try:
+                n = P.from_bytes(d)
+                got = copy_vals(P.c)
+            except DecodeError as ex:
+                if pdu == "v1rx" and len(d) > 8 and (d[8] >> 3) == 7:
+                    key = "C17:v1rx:mts=0111"
+                else:
+                    key = "C17:%s:codec-history:rejected%s" % (pdu, ":layout-%s" % verdict[1] if verdict[0] == "err" else "")
+                out.append((key, case, "%s: data_msg emitted the %d-octet datagram %s.. which %s.from_bytes() rejects "
+                            "(%s)%s" % (hist, len(d), d[:12].hex(), pdu, root_cause(ex),
+                                        "; the layout does not admit it either: %s" % verdict[1] if verdict[0] == "err"
+                                        else "")))
+                continue
+            except BaseException as ex:
+                out.append(("C17:%s:codec-history:raises-%s" % (pdu, type(ex).__name__), case,
+                            "%s: from_bytes() raised %s" % (hist, root_cause(ex))))
+                continue
+            if verdict[0] == "err":
+                out.append(("C17:%s:codec-history:accepted-%s" % (pdu, verdict[1]), case,
+                            "%s: data_msg emitted a %d-octet datagram the layout rejects (%s) and the definition "
+                            "accepted it as %s" % (hist, len(d), verdict[1], brief(got))))
+            elif verdict[0] == "ok":
+                dif = first_diff(verdict[1], got)
+                if dif:
+                    out.append(("C17:%s:codec-history:field-%s" % (pdu, dif), case,
+                                "%s: field %s read differently: layout %s, definition %s"
+                                % (hist, dif, brief(verdict[1]), brief(got))))
+                elif n != len(d):
+                    out.append(("C17:%s:codec-history:consumed" % pdu, case, "%s: consumed %r of %d" % (hist, n, len(d))))
+
+
+def work_objhist(item):
+    _, start, quick = item
+    out, cov = _begin()
+    for k in (1, 2, 3):
+        for ops in itertools.product(OH_OPS, repeat=k):
+            judge_objhist(start, ops, out, cov)
+            cov["objhist_histories"] += 1
+    return {"cov": cov, "viol": out[:30], "nviol_extra": max(0, len(out) - 30)}
+
+
+# ---------------------------------------------------------------------------
 # history leg: the same definition objects (and fresh ones) used for one datagram after another
 
 PDU_CLASS = {"v0rx": "PDUv0Rx", "v0tx": "PDUv0Tx", "v1rx": "PDUv1Rx", "v1tx": "PDUv1Tx", "v2rx": "PDUv2Rx",
@@ -1060,6 +1191,8 @@ def dispatch(item):
     try:
         if kind == "A":
             r = work_msgs(item[1:])
+        elif kind == "objhist":
+            r = work_objhist(item)
         elif kind == "fields":
             r = work_fields(item)
         elif kind == "mts":
@@ -1088,6 +1221,8 @@ def work_items(quick):
         items.append(("A", ("A-rx1-nope", tn), quick))
     for mod, ts in MODSETS:
         items.append(("A", ("A-rx1", mod, ts), quick))
+    for start in OH_STARTS:
+        items.append(("objhist", start, quick))
     for pdu in PDU_NAMES:
         items.append(("fields", pdu, quick))
         for bi in range(len(bases(pdu, quick))):
@@ -1138,7 +1273,10 @@ def run(ctx):
                  "through their boundary sets, plus the complete FN x RSSI x ToA x C/I boundary product per (modulation, "
                  "TSC set)%s; NOPE: TN x FN x RSSI x ToA x C/I product} is encoded by data_msg, decoded by the matching "
                  "definition and compared field by field, re-encoded, and encoded by the definition and parsed by "
-                 "data_msg. B: per class, complete boundary products of the plain fields (TN 0..7, TRXN 0..63, "
+                 "data_msg; object histories: one message object (8 starting states) driven through every sequence of "
+                 "<= 3 state changes from {NOPE flag on/off without clearing anything, burst removed / re-bound, version "
+                 "switched, modulation changed / removed}: whenever gen_msg() then emits a datagram the matching "
+                 "definition must accept it and read what the layout reads. B: per class, complete boundary products of the plain fields (TN 0..7, TRXN 0..63, "
                  "BATCH/SHADOW, FN, RSSI, ToA, C/I, PWR, SCPIR), all 256 MTS octets x candidate burst lengths at every "
                  "PDU position (first, 1st and 2nd batched), every reserved bit set alone and together, all 16 version "
                  "nibbles, every truncation offset and 6 trailing-octet strings of %d base PDUs, and for v2 every "
@@ -1181,6 +1319,8 @@ def replay(ctx, case):
     out, cov = [], new_cov()
     if case["k"] == "msg":
         judge_msg(case["spec"], out, cov)
+    elif case["k"] == "objhist":
+        judge_objhist(case["start"], case["ops"], out, cov)
     elif case["k"] == "dec":
         judge_decode(case["pdu"], bytes.fromhex(case["data"]), case["tag"], out, cov)
     elif case["k"] == "enc":
